@@ -56,6 +56,10 @@ def engine_classes():
             self.scripts = list(scripts)
             self._exe_dir = exe_dir
             self._beta = beta
+            self.old_ids = set()     # id() of every frame object of the two old paths
+
+        def fresh(self, system):
+            return "OLD" if id(system) in self.old_ids else "copy"
 
         # -- the abstract interface of EngineBase
         def _extract_frame(self, traj_file, idx, out_file):
@@ -80,7 +84,7 @@ def engine_classes():
         def dump_phasepoint(self, phasepoint, deffnm="conf"):
             c = self.fs[phasepoint.config[0]][phasepoint.config[1]]
             tag = {"second": 1, "second_last": 0}.get(deffnm, 9)
-            self.log.append(f"D:{self.eid}:{tag}:{c[0]}:{c[1]}")
+            self.log.append(f"D:{self.eid}:{tag}:{c[0]}:{c[1]}:{self.fresh(phasepoint)}")
             super().dump_phasepoint(phasepoint, deffnm)
 
         def next_script(self, init, reverse, maxlen):
@@ -91,7 +95,7 @@ def engine_classes():
             init = self.fs[system.config[0]][system.config[1]]
             op0 = system.order[0]
             self.log.append(f"P:{self.eid}:{1 if reverse else 0}:{tok_num(op0)}:{init[0]}:{init[1]}:"
-                            f"{max(0, path.maxlen)}:{tok_num(left)}:{tok_num(right)}")
+                            f"{max(0, path.maxlen)}:{tok_num(left)}:{tok_num(right)}:{self.fresh(system)}")
             v0, rest = self.next_script(init, reverse, path.maxlen)
             traj_file = os.path.join(self.exe_dir, f"{name}.{self.ext}")
             frames = [(op0, init, v0)] + list(rest)
@@ -238,6 +242,34 @@ def start_cond(sc):
     return ()
 
 
+def snapshot(p):
+    """deep snapshot of an old path: what C09 calls "the old path's frames and files" plus the path-level fields"""
+    frames = []
+    for fr in p.phasepoints:
+        frames.append((id(fr), id(fr.order), tuple(fr.order), tuple(fr.config), fr.vel_rev, fr.vpot, fr.ekin))
+    return {"frames": frames, "list_id": id(p.phasepoints), "status": p.status, "generated": p.generated,
+            "weights": p.weights, "weight": p.weight, "maxlen": p.maxlen, "path_number": p.path_number,
+            "time_origin": p.time_origin}
+
+
+def snapshot_diff(before, after, fs_before, fs_now, name):
+    """first difference between two snapshots (or in the files the frames point to), else None"""
+    for k in before:
+        if k != "frames" and before[k] != after[k]:
+            return f"{name}.{k}: {before[k]!r} -> {after[k]!r}"
+    if len(before["frames"]) != len(after["frames"]):
+        return f"{name}: {len(before['frames'])} frames -> {len(after['frames'])}"
+    labels = ("object identity", "order list identity", "order", "config", "vel_rev", "vpot", "ekin")
+    for i, (b, a) in enumerate(zip(before["frames"], after["frames"])):
+        for lab, x, y in zip(labels, b, a):
+            if x != y:
+                return f"{name}.phasepoints[{i}].{lab}: {x!r} -> {y!r}"
+    for fname, content in fs_before.items():
+        if fs_now.get(fname) != content:
+            return f"file {fname} of {name}: {content!r} -> {fs_now.get(fname)!r}"
+    return None
+
+
 class World:
     """one exe_dir pair + file table; builds the real objects of a case and runs the real move"""
 
@@ -279,7 +311,7 @@ class World:
     def read_path(self, fs, p):
         out = []
         for s in p.phasepoints:
-            c = fs[s.config[0]][s.config[1]]
+            c = fs[s.config[0]][s.config[1]] if s.config[0] in fs else ("missing-file", 0)
             out.append((int(s.order[0]) if float(s.order[0]) == int(s.order[0]) else s.order[0], tuple(c),
                         bool(s.vel_rev), s.vpot))
         return out
@@ -319,6 +351,14 @@ class World:
         rgen = OneDraw(float(c["xi"]))
         picked = self.picked(c, old0, old1, rgen)
         engines = {-1: [eng0], 0: [eng1]}
+        eng0.old_ids = eng1.old_ids = {id(fr) for fr in old0.phasepoints} | {id(fr) for fr in old1.phasepoints}
+        snap = (snapshot(old0), snapshot(old1))
+        old_files = {fr.config[0] for fr in old0.phasepoints} | {fr.config[0] for fr in old1.phasepoints}
+        fs_before = {f: list(fs[f]) for f in old_files if f in fs}
+
+        def mutated():
+            return (snapshot_diff(snap[0], snapshot(old0), fs_before, fs, "old[0-]")
+                    or snapshot_diff(snap[1], snapshot(old1), {}, fs, "old[0+]"))
         self.proxy.exp_log.clear()
         fn = self.tis.quantis_swap_zero if c["kind"] == "quantis" else self.tis.retis_swap_zero
         saved = self.tis.np
@@ -326,7 +366,7 @@ class World:
         try:
             accept, paths, status = fn(picked, engines)
         except Exception as e:  # noqa: BLE001
-            return {"err": err_kind(e), "reqs": list(log)}
+            return {"err": err_kind(e), "reqs": list(log), "mutated": mutated(), "olds": (old0, old1)}
         finally:
             self.tis.np = saved
         ea = p = None
@@ -339,7 +379,7 @@ class World:
             "ea": None if ea is None else float(ea), "p": None if p is None else float(p),
             "path0": self.read_path(fs, paths[0]), "path1": self.read_path(fs, paths[1]),
             "reqs": list(log), "same": paths[0] is old0 and paths[1] is old1, "objs": paths,
-            "nexp": len(self.proxy.exp_log),
+            "nexp": len(self.proxy.exp_log), "mutated": mutated(), "olds": (old0, old1),
         }
 
 
@@ -646,6 +686,17 @@ def det_cases(ctx):
 def check_case(ctx, c, r):
     """property predicates on the real output `r` of case `c`; returns branch label"""
     rep = {k: c[k] for k in c if k != "tag"}
+    # C09 clause for the zero swaps: whatever the outcome, the old paths (frame objects, order, config, vel_rev,
+    # energies, the files they point to, status/generated/weights/maxlen) are exactly as before the call
+    if r.get("mutated"):
+        ctx.fail("C11:old-path-mutated-by-zero-swap",
+                 f"zero swap ({c['kind']}, outcome {r.get('status', r.get('err'))}) changed the OLD path it was given — "
+                 f"{r['mutated']}; violates C09 'a rejected move leaves the old path's frames and files untouched' "
+                 f"(and on ACC run_md only replaces references)", rep)
+    stale = [q for q in r.get("reqs", []) if q.endswith(":OLD")]
+    if stale:
+        ctx.fail("C11:old-frame-handed-to-engine",
+                 f"a frame object of an old path (not a copy) was handed to the engine, which mutates it: {stale} (C09: old path untouched)", rep)
     if "err" in r:
         return "error:" + r["err"]
     e0, e1 = c["e0"], c["e1"]
@@ -681,6 +732,39 @@ def check_case(ctx, c, r):
     return "ACC"
 
 
+def second_case(c):
+    """the follow-up move on the same old paths: longer limits (so that it usually gets further), accept_all"""
+    c2 = dict(c)
+    c2["e0"] = dict(c["e0"], maxlen=c["e0"]["maxlen"] + 3)
+    c2["e1"] = dict(c["e1"], maxlen=c["e1"]["maxlen"] + 3)
+    if "n" in c:
+        c2["n"] = c["n"] + 3
+    if c["kind"] == "quantis":
+        c2["aa"] = True
+    return c2
+
+
+def after_rejection(ctx, W, c, r, fs):
+    """C09 for zero swaps as a two-move sequence: a swap rejected AFTER propagation, the engines' scratch files
+    cleaned (as the worker's clean_up does), then another move on the SAME old path objects: it must behave exactly
+    as on fresh copies of the old paths.  Returns True if the sequence was run."""
+    if "err" in r or r["accept"] or not any(q.startswith("P:") for q in r["reqs"]):
+        return False
+    for k in [k for k in fs if k.startswith(W.root)]:
+        del fs[k]
+    c2 = second_case(c)
+    ra = W.run(c2, fs=fs, old_paths=r["olds"], dirk=1)
+    rb = W.run(c2)
+    la, lb = code_line(ra), code_line(rb)
+    if la != lb:
+        ctx.fail("C11:second-move-differs-after-rejected-swap",
+                 f"after a zero swap rejected with {r['status']} (and clean_up) the next move on the same old paths gives "
+                 f"[{la[:120]}] but on fresh copies [{lb[:120]}] — the rejected move did not leave the old paths untouched (C09)",
+                 {k: c[k] for k in c if k != "tag"})
+    check_case(ctx, c2, ra)
+    return True
+
+
 def strip(c):
     return {k: v for k, v in c.items() if k != "tag"}
 
@@ -705,7 +789,13 @@ def _run(ctx, W):
     have_model = ctx._driver_ok
     # ------------------------------------------------------------------ retis
     cases = retis_cases(ctx)
-    results = [W.run(c) for c in cases]
+    results = []
+    for c in cases:
+        fs = {}
+        r = W.run(c, fs=fs)
+        results.append(r)
+        if after_rejection(ctx, W, c, r, fs):
+            ctx.count(1, branch="retis:second-move-after-rejection")
     if have_model:
         out = ctx.driver([case_line(c) for c in cases])
     for k, (c, r) in enumerate(zip(cases, results)):
@@ -723,9 +813,12 @@ def _run(ctx, W):
     qcases, qres = [], []
     for c in qbase:
         ca = dict(c, aa=True)
-        ra = W.run(ca)
+        fs = {}
+        ra = W.run(ca, fs=fs)
         qcases.append(ca)
         qres.append(ra)
+        if after_rejection(ctx, W, ca, ra, fs):
+            ctx.count(1, branch="quantis:second-move-after-rejection")
         reached = "err" not in ra and ra["p"] is not None
         if not reached:
             cb = dict(c, aa=False)
@@ -740,9 +833,12 @@ def _run(ctx, W):
             ctx.fail("C11:quantis-wrong-exponent", f"np.exp called with {ra['ea']} → {p}; β0·ΔV0 − β1·ΔV1 = {want}", strip(ca))
         for x in xi_grid(p):
             cx = dict(c, aa=False, xi=Fraction(x))
-            rx = W.run(cx)
+            fs = {}
+            rx = W.run(cx, fs=fs)
             qcases.append(cx)
             qres.append(rx)
+            if "err" not in rx and rx["status"] == "QEA" and after_rejection(ctx, W, cx, rx, fs):
+                ctx.count(1, branch="quantis:second-move-after-QEA")
             if "err" in rx:
                 continue
             exp_acc = ra["accept"] and x <= min(1.0, p)
@@ -785,6 +881,8 @@ def _run(ctx, W):
         ctx.count(1, branch=f"det:{br}", gen=c["tag"])
         ctx.distinct(dlines[-1])
         if "err" in r1 or not r1["accept"]:
+            if after_rejection(ctx, W, c, r1, fs):
+                ctx.count(1, branch="det:second-move-after-rejection")
             continue
         c2 = dict(c, old0=r1["path0"], old1=r1["path1"])
         r2 = W.run(c2, fs=fs, old_paths=tuple(r1["objs"]), dirk=2)
@@ -818,6 +916,9 @@ def _run(ctx, W):
         "exp is outside the model: the model gets the float value np.exp returned; the harness checks the exponent exactly and the value against math.exp (rel 1e-14)",
         "membership / swap-twice predicates are evaluated for maxlen0 ≤ maxlen1 (both come from the same tis_set dict in every configuration) and MD programs that do not end before maxlen",
         "`generated`, `time_origin`, `path_number` of the new paths are not compared",
+        "old-path snapshot (C09 clause for zero swaps): per frame object identity, order list identity+contents, config, vel_rev, vpot, ekin, "
+        "the content of the files the frames point to; per path status/generated/weights/weight/maxlen/path_number/time_origin — compared "
+        "around EVERY call; plus the sequence rejected-swap → clean_up → second move vs the same second move on fresh copies",
     ]
 
 
@@ -833,6 +934,8 @@ def replay(ctx, obj):
         before = len(ctx.fails)
         check_case(ctx, c, res)
         sig = obj.get("signature", "")
+        if sig.startswith("C11:second-move"):
+            after_rejection(ctx, W, c, res, fs)
         if sig.startswith("C11:swap-twice") and "err" not in res and res["accept"]:
             c2 = dict(c, old0=res["path0"], old1=res["path1"])
             r2 = W.run(c2, fs=fs, old_paths=tuple(res["objs"]), dirk=2)
